@@ -394,7 +394,7 @@ def h_sample_population(E):
 
 
 # =================================================================== update
-def mk_update(active):
+def mk_update(active, probe_active_positivity=False):
     def h(E):
         P, n = E.dim("population", 2), E.dim("n_params", 1)
         cfg, cf = mk_config(E, P, n, active)
@@ -446,6 +446,9 @@ def mk_update(active):
         for q, nd in enumerate(quad):
             X.lemma_sum_congr_at(E, f"cov.lemma_rank_mu_symmetric.{q}", nd, (i, j), (j, i), using=["cov.lemma_diag_product"])
         E.oblige("cov.symmetric", Sym(z3.Implies(z3.And(in_range(i, n), in_range(j, n)), zr(cov2.at(Sym(i), Sym(j))) == zr(cov2.at(Sym(j), Sym(i))))), using=["cov.symmetric"])
+        if probe_active_positivity:
+            # NOT a claim (see NOT_COVERED): used offline to obtain the solver's counter-model
+            E.oblige("probe.active_positive_variances", Sym(z3.Implies(in_range(i, n), zr(cov2.at(Sym(i), Sym(i))) > 0)), using=["cov.positive_diagonal"], assume_after=False)
         if not active:
             for q, nd in enumerate(quad):
                 X.lemma_sum_pos(E, f"cov.lemma_rank_mu_diagonal_nonneg.{q}", nd, (i, i), strict=False, using=["cov.lemma_diag_product", "W.positive"])
